@@ -70,6 +70,9 @@ def gen_market(rnd, ndays=22, warm=3, n_stocks=None, with_future=None, opts=None
                 divs.append((bi, bi + 1, bi + 1 + rnd.randrange(0, 3), round(rnd.uniform(0.5, 5), 2)))   # book, ex, payable idx, cash per 10
             if len(divs) == 2 and not (divs[0][2] < divs[1][0] or divs[1][2] < divs[0][0]) and not opts.get("overlap_div"):
                 divs = divs[:1]     # overlapping record->payable windows are a separate stream (finding F21)
+        if divs and opts.get("p_special_div") and rnd.random() < opts["p_special_div"]:
+            d0 = divs[0]      # a special dividend announced with the regular one: a second row with the same record, ex and payable dates
+            divs.insert(1, (d0[0], d0[1], d0[2], round(rnd.uniform(0.5, 3), 2)))
         if split_i is not None and divs and rnd.random() < opts.get("p_same_ex", 0.35) and warm + 2 <= divs[0][1] < len(cal) - 2:
             split_i = divs[0][1]        # bonus shares and cash dividend with one ex-date (the usual combined distribution)
         fac = [(0, 1.0)]
